@@ -323,11 +323,14 @@ func (store ItemVarStore) GetDelta(index VariationStoreIndex, coords []Coord) fl
 // Evaluate returns the scalar factor of the region
 func (vr VariationRegion) Evaluate(coords []Coord) float32 {
 	v := float32(1)
-	for axis, coord := range coords {
-		if axis >= len(vr.RegionAxes) { // more coordinates than axes in the store
-			break
+	for axis, regionAxis := range vr.RegionAxes {
+		// a missing coordinate is the default one: without any coordinate (a face
+		// on which no variation has been set) the scalar of a region is 0, not 1
+		var coord Coord
+		if axis < len(coords) {
+			coord = coords[axis]
 		}
-		factor := vr.RegionAxes[axis].evaluate(coord)
+		factor := regionAxis.evaluate(coord)
 		v *= factor
 	}
 	return v
